@@ -729,10 +729,11 @@ impl Exec {
 
     /// the same, with some variables overridden
     pub fn eval_with(&self, r: Ref, e: u64, over: &[(u32, bool)]) -> Result<bool, String> {
+        let big: Option<HashMap<u32, bool>> = if over.len() > 16 { Some(over.iter().copied().collect()) } else { None };
         let st = self.bdd().storage();
         let mut cur = r;
         let mut neg = false;
-        for _ in 0..100_000 {
+        for _ in 0..10_000_000 {
             neg ^= cur.is_negated();
             let i = cur.index() as usize;
             if i == 1 {
@@ -745,10 +746,11 @@ impl Exec {
             if n.variable == 0 {
                 return Err(format!("cell {} has variable 0", i));
             }
-            let val = match over.iter().find(|o| o.0 == n.variable) {
-                Some(o) => o.1,
-                None => abit(e, n.variable),
+            let hit = match &big {
+                Some(m) => m.get(&n.variable).copied(),
+                None => over.iter().find(|o| o.0 == n.variable).map(|o| o.1),
             };
+            let val = hit.unwrap_or_else(|| abit(e, n.variable));
             cur = if val { n.high } else { n.low };
         }
         Err("diagram deeper than 100000".into())
@@ -1630,7 +1632,7 @@ impl Exec {
                             e_fn
                         };
                         let _ = &e_fn;
-                        self.produce(&["C03"], e, |m| match (compiled, val) {
+                        self.produce(&["C03", "C01"], e, |m| match (compiled, val) {
                             (Some((k, hs)), _) => compiled_expr(k, m, hs),
                             (None, Val::R(r)) => m.eval(r),
                             (None, Val::E(x)) => m.eval(x),
@@ -1680,7 +1682,7 @@ impl Exec {
                         if tt.is_none() {
                             self.pending_spec = Some(Spec::Expr(e_fn));
                         }
-                        self.produce(&["C03"], e, |m| m.eval(ex))
+                        self.produce(&["C03", "C01"], e, |m| m.eval(ex))
                     }
                     _ => "bad-op".into(),
                 }
